@@ -153,6 +153,7 @@ def error_chain(P, chk, bodies, rule, table_entries, used, error_names=None, sel
         uses = E.consumption(P, b, bb)
         bad = [u for u in uses if u.kind not in E.GOOD]
         cs = panics.short_callee(callee(t) or "?")
+        cs = {"TryFrom::try_from": "TryInto::try_into", "From::from": "Into::into"}.get(cs, cs)   # same conversion, written from the other side
         if not bad:
             base = "%s|%s|%s" % (b.key, cs, "+".join(sorted(set(u.kind for u in uses))))
             k = seen.get(base, 0) + 1
